@@ -1,3 +1,157 @@
-/- C08 — property theorems only (helper lemmas live in `Rooc/Proofs`). -/
+/-
+C08 — Compiled linear models are well-formed; no guessed or non-finite constants.
+PROPERTY THEOREMS ONLY (helper lemmas live in `Rooc/Proofs/WF*.lean`).
+
+`Lin.linearizeWith m b d` is the executable port of `Linearizer::linearize` (diffed bit-exactly against the
+Rust by `./check C08` / `./check C01`): `m` the source model, `b` the bounds map and `d` the tightened domain
+produced by bound inference.  `WF.report m lm` is the decidable well-formedness predicate that the oracle runs
+on the IMPLEMENTATION's output; the theorems below say that the model's output satisfies each of its facets,
+for every input, over an arbitrary number type `α` (structural facets) and over `Ext K` (finiteness).
+
+Hypotheses on the input are decidable predicates that the front end guarantees
+(`Lin.DomainNodup`, `Lin.UsedKept`, `Lin.DeclaredIn`: the domain is an `IndexMap`, and bound tightening only
+changes variable *types*).
+-/
+import Rooc.Proofs.WFFinal
 namespace Rooc.Props.C08
+open Rooc Rooc.Lin Rooc.WFDedup
+
+variable {α : Type} [Arith α]
+
+/-! ### 1. the variable list is strictly sorted, hence duplicate-free -/
+
+/-- `lm.vars` is strictly increasing.  Rests on the state invariant "domain names are pairwise distinct",
+preserved by every action of the linearizer because `declareVariable` refuses an existing name. -/
+theorem vars_sorted_nodup {m : Model α} {b : BoundsMap α} {d : List (DomVar α)} {lm : LinModel α}
+    (hd : DomainNodup d = true) (h : linearizeWith m b d = .ok lm) :
+    (WF.report m lm).varsSortedUnique = true := by
+  obtain ⟨obj, s, hr, _, rfl⟩ := run_struct h
+  exact vars_sorted_of_nodup (hr.nodup ((WFList.noDup_iff _).mp hd))
+
+/-- … in particular it has no duplicates. -/
+theorem vars_nodup {m : Model α} {b : BoundsMap α} {d : List (DomVar α)} {lm : LinModel α}
+    (hd : DomainNodup d = true) (h : linearizeWith m b d = .ok lm) : lm.vars.Nodup :=
+  WFList.nodup_of_sortedStrict (vars_sorted_nodup hd h)
+
+/-! ### 2. variables = domain keys; one coefficient per variable -/
+
+/-- every variable has a domain entry, every domain entry is a variable, and the domain keys are distinct. -/
+theorem vars_eq_domain_keys {m : Model α} {b : BoundsMap α} {d : List (DomVar α)} {lm : LinModel α}
+    (hd : DomainNodup d = true) (h : linearizeWith m b d = .ok lm) :
+    (WF.report m lm).varsEqDomainKeys = true := by
+  obtain ⟨obj, s, hr, _, rfl⟩ := run_struct h
+  exact vars_eq_keys_of_nodup (hr.nodup ((WFList.noDup_iff _).mp hd))
+
+/-- every row has exactly one coefficient per variable (`extract_coeffs` only overwrites positions). -/
+theorem row_lengths {m : Model α} {b : BoundsMap α} {d : List (DomVar α)} {lm : LinModel α}
+    (h : linearizeWith m b d = .ok lm) : (WF.report m lm).rowLengths = true := by
+  obtain ⟨obj, s, _, _, rfl⟩ := run_struct h
+  exact row_lengths_assemble m obj s
+
+/-- the objective has exactly one coefficient per variable. -/
+theorem objective_length {m : Model α} {b : BoundsMap α} {d : List (DomVar α)} {lm : LinModel α}
+    (h : linearizeWith m b d = .ok lm) : (WF.report m lm).objectiveLength = true := by
+  obtain ⟨obj, s, _, _, rfl⟩ := run_struct h
+  exact objective_length_assemble m obj s
+
+/-! ### 3. no used source variable is dropped -/
+
+/-- every declared variable with a usage mark is in `lm.vars`: the domain only grows and usage marks are
+never reset. -/
+theorem source_vars_present {m : Model α} {b : BoundsMap α} {d : List (DomVar α)} {lm : LinModel α}
+    (hk : UsedKept m d = true) (h : linearizeWith m b d = .ok lm) :
+    (WF.report m lm).sourceVarsPresent = true := by
+  obtain ⟨obj, s, hr, _, rfl⟩ := run_struct h
+  exact source_vars_present_of_rel hr hk
+
+/-! ### 4. row names -/
+
+/-- the non-empty row names of the output are pairwise distinct (the bounded candidate search of the
+de-duplication always finds a free `name__k`: pigeonhole, `WFDedup.exists_free`). -/
+theorem names_unique {m : Model α} {b : BoundsMap α} {d : List (DomVar α)} {lm : LinModel α}
+    (h : linearizeWith m b d = .ok lm) : (WF.report m lm).namesUnique = true := by
+  obtain ⟨obj, s, _, _, rfl⟩ := run_struct h
+  exact names_unique_assemble m obj s
+
+/-- every output row name is a name the user wrote, or `name__k` for such a name. -/
+theorem user_names_kept {m : Model α} {b : BoundsMap α} {d : List (DomVar α)} {lm : LinModel α}
+    (h : linearizeWith m b d = .ok lm) : (WF.report m lm).userNamesKept = true := by
+  obtain ⟨obj, s, _, hok, rfl⟩ := run_struct h
+  exact user_names_kept_of_ok hok
+
+/-- the de-duplication touches nothing but names; a changed name is `name__k` (`k ≥ 2`) for the name the
+row had, and is NOT a name any row had before (so it never equals a user-written name). -/
+theorem dedup_only_renames (rows : List (MidRow α)) :
+    List.Forall₂ (fun r o => o.lhs = r.lhs ∧ o.rhs = r.rhs ∧ o.cmp = r.cmp ∧
+      (o.name = r.name ∨ (r.name ≠ "" ∧ o.name ∉ nonEmptyNames rows ∧ ∃ k, o.name = r.name ++ "__" ++ toString (k + 2))))
+      rows (dedupNames rows) :=
+  dedupNames_rel rows
+
+/-- the first use of each user-written name is kept verbatim. -/
+theorem dedup_first_use_kept (pre post : List (MidRow α)) (r : MidRow α)
+    (hne : r.name ≠ "") (hfirst : ∀ q ∈ pre, q.name ≠ r.name) :
+    (dedupNames (pre ++ r :: post))[pre.length]? = some r :=
+  dedupNames_first_kept pre post r hne hfirst
+
+/-- after de-duplication the non-empty names are pairwise distinct, for every list of rows. -/
+theorem dedup_names_nodup (rows : List (MidRow α)) : (nonEmptyNames (dedupNames rows)).Nodup :=
+  dedupNames_nodup rows
+
+/-! ### 5. auxiliaries never collide with user variables -/
+
+/-- every output variable is declared in the source or is a `$`-prefixed auxiliary. -/
+theorem aux_disjoint {m : Model α} {b : BoundsMap α} {d : List (DomVar α)} {lm : LinModel α}
+    (hdecl : DeclaredIn m d = true) (h : linearizeWith m b d = .ok lm) :
+    (WF.report m lm).auxDisjoint = true := by
+  obtain ⟨obj, s, hr, _, rfl⟩ := run_struct h
+  exact aux_disjoint_of_rel hr hdecl
+
+/-- `declare_variable` never shadows: asked to declare a name that is already in the domain (for instance a
+user variable literally called `$abs_0`) it fails with `VarAlreadyDeclared` and changes nothing. -/
+theorem declare_never_shadows (name : String) (ty : VarType α) (s : St α)
+    (h : name ∈ s.domain.map (·.name)) :
+    declareVariable name ty s = .error (.varAlreadyDeclared name) := by
+  obtain ⟨v, hv, hn⟩ := List.mem_map.mp h
+  have : (s.domain.any fun x => x.name == name) = true :=
+    List.any_eq_true.mpr ⟨v, hv, by simp [hn]⟩
+  show (do let s ← get; if (s.domain.any fun x => x.name == name) = true then Lin.fail _ else _ : M α Unit) s = _
+  show (if (s.domain.any fun x => x.name == name) = true then (Lin.fail _ : M α Unit) else _) s = _
+  rw [if_pos this]
+  rfl
+
+/-- the compiled domain is the input domain followed by auxiliaries — each `$`-prefixed, marked used, with a
+name different from every input name and from every other auxiliary — filtered to the used variables. -/
+theorem domain_is_input_plus_fresh_aux {m : Model α} {b : BoundsMap α} {d : List (DomVar α)} {lm : LinModel α}
+    (hd : DomainNodup d = true) (h : linearizeWith m b d = .ok lm) :
+    ∃ added : List (DomVar α),
+      lm.domain = (d ++ added).filter (fun v => lm.vars.contains v.name) ∧
+      (∀ v ∈ added, v.usage = 1 ∧ WF.isAuxName v.name = true ∧ v.name ∉ d.map (·.name)) ∧
+      (added.map (·.name)).Nodup := by
+  obtain ⟨obj, s, hr, _, rfl⟩ := run_struct h
+  obtain ⟨added, hdom, hadd⟩ := hr.grow
+  have hnd := hr.nodup ((WFList.noDup_iff _).mp hd)
+  have hnd' : (d.map (·.name) ++ added.map (·.name)).Nodup := by
+    have : domNames s = d.map (·.name) ++ added.map (·.name) := by
+      unfold domNames; rw [hdom]; simp [initSt]
+    rw [← this]; exact hnd
+  rw [List.nodup_append] at hnd'
+  refine ⟨added, ?_, ?_, hnd'.2.1⟩
+  · show s.domain.filter (fun v => (assemble m obj s).vars.contains v.name) = _
+    rw [hdom]; rfl
+  · intro v hv
+    refine ⟨(hadd v hv).1, (hadd v hv).2, ?_⟩
+    intro hin
+    exact hnd'.2.2 _ hin _ (List.mem_map.mpr ⟨v, hv, rfl⟩) rfl
+
+/-! ### all structural facets at once -/
+
+/-- every facet of the oracle's report except finiteness, for every number type. -/
+theorem report_ok_structural {m : Model α} {b : BoundsMap α} {d : List (DomVar α)} {lm : LinModel α}
+    (hd : DomainNodup d = true) (hk : UsedKept m d = true) (hdecl : DeclaredIn m d = true)
+    (h : linearizeWith m b d = .ok lm) :
+    (WF.report m lm).ok false = true := by
+  simp only [WF.Report.ok, Bool.and_eq_true, Bool.or_eq_true, Bool.not_false, or_true, and_true]
+  exact ⟨⟨⟨⟨⟨⟨⟨vars_sorted_nodup hd h, vars_eq_domain_keys hd h⟩, row_lengths h⟩, objective_length h⟩,
+    names_unique h⟩, source_vars_present hk h⟩, user_names_kept h⟩, aux_disjoint hdecl h⟩
+
 end Rooc.Props.C08
